@@ -293,7 +293,7 @@ func runScenario(sc *Scenario, raceLog *raceWatch) *ScenResult {
 	if cfg.SoftSteps == 0 {
 		cfg.SoftSteps = 20*est + 20000
 	}
-	if cfg.Sched == simrt.SchedPCT && len(cfg.Points) == 0 && cfg.Seed != 0 {
+	if cfg.Sched == simrt.SchedPCT && len(cfg.Points) == 0 && len(cfg.SyncPoints) == 0 && cfg.Seed != 0 {
 		r := newRng(cfg.Seed, 77)
 		d := 1 + r.intn(3)
 		for i := 0; i < d; i++ {
@@ -513,7 +513,8 @@ func raceSignature(txt string) (sig string, ours bool) {
 // genTimeScenario: every task evaluates strtotime / time literals naming zones the
 // process has (mostly) not seen yet: concurrent tz-cache misses, lock contention.
 func genTimeScenario(r *rng, cold bool) *Scenario {
-	sc := &Scenario{ColdFirst: cold}
+	// mostly concurrent-first: the solo runs would resolve every zone name before the tasks meet
+	sc := &Scenario{ColdFirst: cold || r.chance(0.7)}
 	k := 2 + r.intn(3)
 	zones := []string{r.pick(tzMany), r.pick(tzMany), r.pick(tzMany)}
 	for t := 0; t < k; t++ {
@@ -788,7 +789,16 @@ func invokeEnv(r *rng, compiled string) string {
 
 func genSimConfig(r *rng) simrt.Config {
 	c := simrt.Config{Seed: r.u64() | 1, ClockSeam: true, ClockBase: 1700000000}
-	switch r.intn(12) {
+	switch r.intn(15) {
+	case 12, 13, 14:
+		// one to three preemptions, each at a yield next to a synchronisation operation, the
+		// rest of the run uninterrupted: opens the window between two critical sections
+		c.Sched = simrt.SchedPCT
+		d := 1 + r.intn(3)
+		for i := 0; i < d; i++ {
+			c.SyncPoints = append(c.SyncPoints, 1+uint64(r.intn(1<<uint(1+r.intn(9)))))
+		}
+		sort.Slice(c.SyncPoints, func(i, j int) bool { return c.SyncPoints[i] < c.SyncPoints[j] })
 	case 0, 1:
 		c.Sched, c.SwitchProb = simrt.SchedRandom, 0.01
 	case 2, 3:
